@@ -626,6 +626,7 @@ class Walker:
     def __init__(self):
         self.func_stack = []
         self.loop_stack = []
+        self._unroll_stack = []
 
     # hooks ---------------------------------------------------------------
     def on_stmt(self, st, state):
@@ -666,6 +667,24 @@ class Walker:
         return out
 
     split_paths = False
+    unroll_literal_loops = False
+
+    def _unrolled(self, st, elts, state):
+        """for target in <literal tuple>: body  -- walked once per element,
+        with break / continue as path-level control flow."""
+        cur = state.copy()
+        breaks = []
+        for elt in elts:
+            if cur is None or not cur.reachable():
+                break
+            s = cur.copy()
+            self._bind(s, st.target, elt)
+            self._unroll_stack.append({'break': [], 'continue': []})
+            out = self.walk_block(st.body, s)
+            ctl = self._unroll_stack.pop()
+            breaks += ctl['break']
+            cur = merge([out] + ctl['continue'])
+        return merge([cur] + breaks)
 
     def walk_block(self, stmts, state):
         for i, st in enumerate(stmts):
@@ -695,6 +714,10 @@ class Walker:
             return None
         if isinstance(st, (ast.Continue, ast.Break)):
             self.on_loop_exit_stmt(st, state)
+            if self._unroll_stack:
+                self._unroll_stack[-1][
+                    'break' if isinstance(st, ast.Break) else
+                    'continue'].append(state.copy())
             return None
         if isinstance(st, ast.Assert):
             if is_abort(st):
@@ -708,6 +731,21 @@ class Walker:
             o_else = self.walk_block(st.orelse, s_else) if \
                 s_else.reachable() else None
             return merge([o_then, o_else])
+        if isinstance(st, (ast.For, ast.AsyncFor)) and \
+                self.unroll_literal_loops:
+            it = state.sub(st.iter)
+            if isinstance(it, (ast.Tuple, ast.List)) and 0 < len(
+                    it.elts) <= 8 and not st.orelse:
+                return self._unrolled(st, it.elts, state)
+            if isinstance(it, ast.Call) and text(
+                    it.func) == 'enumerate' and len(
+                        it.args) == 1 and isinstance(
+                            it.args[0], (ast.Tuple, ast.List)) and 0 < len(
+                                it.args[0].elts) <= 8 and not st.orelse:
+                elts = [ast.Tuple(elts=[ast.Constant(value=k), e],
+                                  ctx=ast.Load())
+                        for k, e in enumerate(it.args[0].elts)]
+                return self._unrolled(st, elts, state)
         if isinstance(st, (ast.For, ast.AsyncFor)):
             s = state.copy()
             for n in assigned_names([st]):
